@@ -183,9 +183,6 @@ func genWasm(r *hx.Rand, o wopts) []byte {
 func genWasmLine(r *hx.Rand, calm bool) string {
 	o := wopts{exportIdx: -1, exportName: "invoke", memPages: 1}
 	v := r.Intn(12)
-	if calm && v <= 1 && !r.Chance(10) { // the known panics of checkOntoWasm cost a worker each: rare in the quick tier
-		v = 11
-	}
 	switch v {
 	case 0:
 		if r.Bool() {
@@ -209,9 +206,7 @@ func genWasmLine(r *hx.Rand, calm bool) string {
 	}
 	mod := genWasm(r, o)
 	mut := r.Intn(10)
-	if calm && mut <= 3 && !r.Chance(25) { // byte-level damage finds panics inside the wagon parser (one known class): rarer in the quick tier
-		mut = 9
-	}
+	_ = calm
 	switch mut {
 	case 0: // mutate a byte
 		mod[8+r.Intn(len(mod)-8)] = byte(r.U64())
